@@ -14,7 +14,7 @@ PROP = dict(
             "read-only SQL shim harness/shims/persist/sqlite/zz_verif_accounts.go",
         ],
         level_text="ledger invariant proved in Lean for every operation sequence of the model (= every interleaving of the atomic manager/store operations): balance = accepted deposits - committed withdrawals >= 0 and metric laws for ALL sequences incl. mixed protocols (balance_eq_ledger, metrics_active_eq, metrics_eq / metrics_eq_partial); reservation laws (store = spendable + open reservations, openTxns = #open budgets, budget_iff, commit_exact, rollback_refunds, failed_commit_keeps_reservation, no_double_spend, no_panic) for all sequences without an RHP4 debit on a key that has open RHP3 budgets (ledger_inv_partial; the excluded case is refuted by mixed_protocol_breaks_ledger and replayed on the code); the model is tied to the code by seeded random operation sequences executed on the real accounts.AccountManager + sqlite.Store (both protocols, injected store failures) and replayed line by line on the compiled model",
-        level_note="partial where the current code violates the property: metrics_eq holds for the repaired tree, on the current tree only metrics_eq_partial (metric = sum of balances + accepted RHP4 debits); ledger_inv_partial excludes RHP4 debits on keys with open RHP3 budgets. Trusted: Lean kernel (+propext, Classical.choice, Quot.sound), atomicity assumption, harness canonicalisation",
+        level_note="partial where the code violates the property: ledger_inv_partial excludes RHP4 debits on keys with open RHP3 budgets (known finding mixed_protocol_reservation); metrics_eq holds since fix 21fbfc5 (metrics_eq_partial describes the tree before it: metric = sum of balances + accepted RHP4 debits). Trusted: Lean kernel (+propext, Classical.choice, Quot.sound), atomicity assumption, harness canonicalisation",
         assumptions=[
             "'balance' in clause 1 is the persisted balance (Store.AccountBalance = RHP4AccountBalance); AccountManager.Balance reports it minus the open reservations",
             "an RHP4 deposit arriving while RHP3 budgets are open is only seen by the manager once they are closed (under-reports the spendable balance, never over-reports): treated as allowed by 'succeeds only if', recorded as history variable `stale` in budget_iff",
